@@ -1,9 +1,9 @@
 (* C15 — Rotation preserves the in-order sequence (tree level). rotate_tree is the function on shapes that
    BinaryTreeNode.rotate computes (tied to the code by the `rotate` correspondence suite, which reads the
    real nodes back after node.rotate() and audits every parent/child link). *)
-From Coq Require Import List Arith Bool.
-From Mathy Require Import Bt.
-From MathyProofs Require Import BtFacts.
+From Coq Require Import List Arith Bool Permutation.
+From Mathy Require Import Bt Heap.
+From MathyProofs Require Import BtFacts HeapFacts HeapRotate.
 Import ListNotations.
 
 Theorem C15_rotate_inorder : forall (A:Type) (t:bt A) (p:list side), inorder (rotate_tree t p) = inorder t.
@@ -23,6 +23,30 @@ Theorem C15_rotate_shape : forall (A:Type) (a b c:bt A) (n p:A),
   rotate_tree (T (T a n b) p c) [SL] = T a n (T b p c) /\ rotate_tree (T a p (T b n c)) [SR] = T (T a p b) n c.
 Proof. intros. split; [destruct c|destruct a]; reflexivity. Qed.
 Print Assumptions C15_rotate_shape.
+
+(* HEAP LEVEL (theories/Heap.v: hrotate = the pointer writes of BinaryTreeNode.rotate, in order). For every heap that represents an
+   abstract tree T at A (links mutually consistent: rep), with no node object twice, every node of the tree other than its root:
+   after node.rotate() the heap represents a tree T' at A' over the same node objects (a permutation of the addresses: none lost, none
+   twice), the in-order sequence of node objects is unchanged, nothing outside the tree is written except the child pointer of the
+   tree's parent (when the tree's root changes), and the heap keeps its size. rep of the result IS link consistency: every child's
+   parent pointer is its parent, the root's parent pointer is the old one. *)
+Theorem C15_heap_rotate : forall T h A P node,
+  rep h (Some A) P T -> NoDup (oaddrs h (Some A) T) -> In node (oaddrs h (Some A) T) -> node <> A ->
+  (forall g, P = Some g -> ~ In g (oaddrs h (Some A) T)) ->
+  let h' := hrotate h node in
+  exists T' A', rep h' (Some A') P T' /\ ainorder h' (Some A') T' = ainorder h (Some A) T /\
+    Permutation (oaddrs h' (Some A') T') (oaddrs h (Some A) T) /\
+    (forall x, ~ In x (oaddrs h (Some A) T) -> P <> Some x -> nth_error h' x = nth_error h x) /\
+    (A' = A \/ A' = node) /\
+    (forall g gn, P = Some g -> nth_error h g = Some gn ->
+       nth_error h' g = Some (if Nat.eqb A' A then gn else if is_ptr (h_l gn) A then set_l (Some A') gn else set_r (Some A') gn)) /\
+    length h' = length h.
+Proof. exact rotate_global. Qed.
+Print Assumptions C15_heap_rotate.
+(* rotating the root (no parent) writes nothing *)
+Theorem C15_heap_rotate_root : forall h node n, nth_error h node = Some n -> h_p n = None -> hrotate h node = h.
+Proof. intros h node n Hn Hp. unfold hrotate. rewrite Hn, Hp. reflexivity. Qed.
+Print Assumptions C15_heap_rotate_root.
 
 Example C15_example :
   rotate_tree (T (T (T E 3 E) 1 (T E 4 E)) 0 (T E 2 E)) [SL; SR] = T (T (T (T E 3 E) 1 E) 4 E) 0 (T E 2 E).
